@@ -344,7 +344,18 @@ impl<'store> Transposable<'store> for ResultTextSelectionSet<'store> {
                 if source_side != Some(side_i) {
                     for (j, (refseqnr, relative_offset)) in relative_offsets.iter().enumerate() {
                         //select the text selection we seek
-                        let reftsel = annotation.textselections().nth(*refseqnr).expect("element must exist"); //MAYBE TODO: improve performance
+                        let reftsel = annotation.textselections().nth(*refseqnr).ok_or_else(|| {
+                            //the sides of the transposition do not have the same number of text selections
+                            StamError::TransposeError(
+                                format!(
+                                    "Side {} of transposition {} has no text selection #{}, the sides do not correspond",
+                                    side_i,
+                                    via.id().unwrap_or("(no-id)"),
+                                    refseqnr
+                                ),
+                                "",
+                            )
+                        })?; //MAYBE TODO: improve performance
                         //select the proper subselection thereof
                         let mapped_tsel = reftsel.textselection(&relative_offset)?;
                         if config.debug {
